@@ -324,7 +324,9 @@ pub fn run_case(c: &WCase) -> Outcome {
             "handshake" => {
                 let all = w.nodes.iter().all(|n| n.running_at.is_some());
                 if !all {
-                    if st.dropped_random as f64 > 0.45 * st.sent as f64 {
+                    if !w.hit_limit {
+                        out.inconclusive("run ended before the virtual time cap with a handshake still open");
+                    } else if st.dropped_random as f64 > 0.45 * st.sent as f64 {
                         out.inconclusive("handshake still open at the time cap on a link losing half of its packets");
                     } else {
                         out.violate(v("handshake did not complete", format!("running_at {:?} after {} ms", w.nodes.iter().map(|n| n.running_at.map(|t| (t - T0) / MS)).collect::<Vec<_>>(), (w.end_t - T0) / MS), 0, w.end_t));
